@@ -1000,6 +1000,66 @@ pub fn worker(a: &Args) -> i32 {
                 }
             }
         }
+        // ... and the complementary sweep: the LAST name (or category) of a file of N repeats the
+        // q-th one, for every q. `enum-dups` fixes the position of the second occurrence and draws
+        // the first at random; a structure that loses exactly the k-th name it was given (a spill,
+        // a migration, a rehash) needs the FIRST occurrence at k. Checked directly (accepted =
+        // violation; the accepted file then goes through `execute` for the record).
+        "enum-first" => {
+            let sizes: Vec<usize> = if runs >= 1000 { vec![40, 300, 1100, 4200] } else { vec![40, 300, 600] };
+            let mut k = 0u64;
+            'sizes: for &n in &sizes {
+                for variant in 0..3u64 {
+                    let build = |q: usize| -> String {
+                        let mut t = String::with_capacity(n * 8 + 16);
+                        match variant {
+                            2 => {
+                                for i in 0..n {
+                                    t.push_str(&format!("[c{i}]\n"));
+                                }
+                                t.push_str(&format!("[c{q}]\n"));
+                            }
+                            _ => {
+                                t.push_str("[c]\n");
+                                for i in 0..n {
+                                    t.push_str(&format!("n{i}"));
+                                    t.push(if variant == 1 && i % 5 != 4 { '|' } else { '\n' });
+                                }
+                                if !t.ends_with('\n') {
+                                    t.push('\n');
+                                }
+                                t.push_str(&format!("[d]\nn{q}\n"));
+                            }
+                        }
+                        t
+                    };
+                    for q in 0..n {
+                        k += 1;
+                        if k % workers != worker {
+                            continue;
+                        }
+                        let text = build(q);
+                        out.runs += 1;
+                        out.enumerated_dup_positions += 1;
+                        cooklang::verif_seam::reseed(k);
+                        let accepted = matches!(catch_unwind(AssertUnwindSafe(|| aisle::parse(&text).is_ok())), Ok(true));
+                        if !accepted && !(n == 40) {
+                            continue;
+                        }
+                        // (small files always go through the full oracle, which also checks the error's spans)
+                        let sc = AisleScenario { text, hash_seed: k, ops_a: vec![AisleOp::Lookup], ops_b: vec![], other_text: None, ops_c: vec![], order: vec![], prelude: vec![] };
+                        let (viol, st) = execute(&sc);
+                        if out.samples.is_empty() && n == 40 && q == 7 {
+                            out.samples.push(serde_json::json!({"size": n, "last_repeats": q, "variant": variant, "scenario": &sc}));
+                        }
+                        absorb(&mut out, &sc, &st, &viol, a, None, &replay_dir, &format!("first-{n}-{variant}-{q}"));
+                        if out.violations.len() >= max_viol {
+                            break 'sizes;
+                        }
+                    }
+                }
+            }
+        }
         // the other axis of the same idea: ONE duplicate (or one near-duplicate, which is not one)
         // among names of every byte length. Thresholds in duplicate detection, interning, inline
         // buffers and bit masks sit at particular *lengths* (15/16, 22/23, 31/32, 63/64, 127/128,
